@@ -157,6 +157,7 @@ fn plan(p: &mut Plan<'_>) {
         "C15" => {
             p.part(netsim::NetSim { mode: netsim::Mode::C15 }, 700, 40_000, "whole-stack runs biased to the unvalidated phase: RSA chain (first server flight > 3x1200 bytes), client second-flight loss/truncation/duplication so the server retransmits while unvalidated; the network's per-address byte ledger is checked after every server send until the server first processes a Handshake packet; non-trivial = a fault fired and handshake progressed; distinct = trace hash");
             p.part(netsim::aasim::AaSim, 300_000, 30_000_000, "component run: one real AntiAmplifier<3> with its ArcSendWaker under generated histories of packet arrivals (sizes 0..1452), send bursts of 1..5 datagrams each cut to the credit read for it (bytes fed back per datagram, or per burst as Path::send_packets does), grants, aborts and a send task parking on CREDIT; after every credit read balance() is compared with the signed model 3*received - sent (exact while the contract is kept), an overdrawn burst must not wrap into an unlimited allowance, and a parked task must be woken by arrival / grant / abort; non-trivial = datagrams were sent and more than one packet arrived; distinct = hash of the op/result history");
+            p.part(netsim::pathsim::PathSim, 30_000, 3_000_000, "component run: one real qconnection Path over an I/O that swallows what is sent, built as a probed (peer-opened) path: its real validate() task on the paused clock, packet arrivals, sends cut to the credit and charged through Path::send_packets, PATH_RESPONSE frames that echo the outstanding challenge / carry random data / are one bit off, time advancing past the probe timeouts, a send task parked on CREDIT; observed through hook H4; reference: validated iff a matching response arrived while validation ran, credit 3*received - sent until then, unlimited and parked sender woken afterwards; non-trivial = validation started and packets arrived; distinct = hash of the op/validated history");
             p.assumptions = vec!["bytes delivered to the server's socket from the client address are an upper bound of what the server may count as received", "validation instant = the server's first packet_received qlog event of type handshake", "component run: grant and abort are first-one-wins, as the type documents"];
         }
         "C17" => {
